@@ -1,10 +1,16 @@
 """C07 — selection protocols turn criteria into valid, correct cross configurations.
 Correspondence between Model/C07_Config.v (a composition of the C17 sampling model) and
-  * the six configuration classes' sample_xconfig (cfg/{Subset,Real,Integer,Binary,SubsetMate,IntegerMate}SelectionConfiguration),
+  * the eight configuration classes' sample_xconfig (cfg/{Subset,Real,Integer,Binary,SubsetMate,IntegerMate,BinaryMate,RealMate}SelectionConfiguration),
+    also through object lifecycles (kind life: copy / deepcopy, the xconfig_decn / ncross / nparent / xconfig_xmap / rng setters, in-place
+    writes into the decision vector, a sampling after every change),
   * core/util/array.py triuix / triudix / xmapix,
-  * <Protocol>.select() of the Subset/Real/Integer/Binary/SubsetMate/IntegerMate protocol bases through concrete protocols
-    (EBV, GEBV, OCS, Random, OHV, UC) with exact optimisers, and the protocols' nmating / nprogeny validation,
-plus the independent predicate (the property stated on the implementation's outputs)."""
+  * <Protocol>.select() of all eight protocol bases through all 24 concrete protocols of the anchored families (EBV, GEBV, OCS, Random,
+    OHV, UC x subset / real / integer / binary) with exact optimisers, also as sessions on ONE protocol object (cross-design setters,
+    breeding values overwritten in place, a relabelled population between calls), and the protocols' nmating / nprogeny validation,
+  * an audit case enumerating every class / function of the anchored modules at run time (COVERED / SKIPPED below; anything
+    unclassified fails the check),
+plus the independent predicate (the property stated on the implementation's outputs).
+Kernel expressions (Gen/C07_Kernel.v) are regenerated from the source by harness/translate/c07_kernel.py on every run (translate())."""
 import copy, itertools, math, random as _pyrandom
 from fractions import Fraction
 import numpy
@@ -25,7 +31,14 @@ LEVEL_TEXT = ("Coq theorems over an executable model that composes the (proved) 
               "nprogeny a selection protocol accepts at construction is accepted by the configuration select() builds; triudix / "
               "triuix enumerate exactly the strictly increasing / non-decreasing k-tuples below n in lexicographic order; the sorting "
               "optimiser returns a top-k set which minimises the summed criterion and commutes with relabelling under distinct criterion "
-              "values; the multi-objective choice is the first argmax of ndset_wt * (declared transformation of the front). The model is "
+              "values; the multi-objective choice is the first argmax of ndset_wt * (declared transformation of the front); a 0/1 vector over "
+              "candidate crosses (BinaryMateSelectionConfiguration) uses the marked crosses floor or ceiling of ncross/k times, a contribution "
+              "vector over candidate crosses (RealMateSelectionConfiguration) floor or ceiling of ncross*x_i/sum(x). 116 kernel expressions "
+              "(index / pointer formulas, size / replace / axis arguments, argument order, cross-map lookup, the setters' checks, the dispatch on "
+              "nobj, score and argmax, the row of the solution and the attributes handed to the configuration in both branches of the eight "
+              "select() methods, lower bound / leaf test / range of triudix and triuix, xmapix, the slice of the sorting optimiser) are regenerated "
+              "from the source on every run, the configurations assembled from them are proved equal to the hand model and the property theorems "
+              "are stated about the assembled programs (C07_kernel_*), so a changed expression breaks the build whatever the cases exercise. The model is "
               "evaluated inside Coq against the implementation's outputs on generated inputs with recorded scripted draws (bit-exact "
               "binary64 for the stochastic-universal-sampling pointers)")
 LEVEL_NOTE = ("trusted: Coq kernel + vm_compute, PrimFloat primitives; the C17 model of tiled_choice / SUS / outcross_shuffle / axis_shuffle "
@@ -35,16 +48,23 @@ LEVEL_NOTE = ("trusted: Coq kernel + vm_compute, PrimFloat primitives; the C17 m
               "protocols pass rng=None, finding C08-selcfg-global-rng) and recorded; theorems are about the Gallina model, the tie to the code is "
               "differential on generated inputs")
 TECHNIQUE = "Coq proof over an executable model (composition of the C17 model); in-Coq vm_compute correspondence with the implementation"
-RULE = ("case = (kind in {cfg, xmap, select}, arguments, draw script); one PRNG. cfg: class in {subset, real, integer, binary, mate, imate}, "
+RULE = ("case = (kind in {cfg, life, xmap, select, audit}, arguments, draw script); one PRNG. cfg: class in {subset, real, integer, binary, mate, imate, bmate, rmate}, "
         "ncross 1..5 x nparent 1..4, decision vectors with sizes 1..8 incl. fewer/equal/more members than slots, duplicates, zeros, sums "
         "that do / do not divide the slot count, bool/int32/int64 storage, scalar or array nmating/nprogeny, invalid shapes and dtypes; "
-        "draw modes identity / reversal / random; a second sample_xconfig call; xmap: n 0..7, k 0..4, both generators and xmapix; select: "
+        "real weights also scaled by 2^e, e in -40..20, and exact zeros next to 2^-40; 130..300 candidates / rows of the cross map with members beyond 127 and 255 "
+        "and int8 / uint8 / int16 / bool storage; draw modes identity / reversal / random; a second sample_xconfig call; the sampled matrix overwritten in place "
+        "(aliasing with decision vector / cross map); life: 2..4 of {copy, deepcopy, set_decn, in-place mutate_decn, set_shape, set_xmap, set_rng}, a sampling "
+        "after each; xmap: n 0..7, k 0..4, both generators and xmapix; select: all 24 protocol classes, breeding values scaled by 2^e (e in -30..15), sessions of "
+        "1..2 further select() calls on the same protocol (setters / in-place breeding values / relabelled population); audit: introspection of the anchored modules; "
         "families EBV (4 encodings), GEBV, OCS, Random, OHV (subset- and integer-mate), UC, 3..8 taxa, 1..2 traits, ties and distinct criteria, zero / negative / "
         "wrong-length nmating and nprogeny (must be refused by the constructor), nobj 1..2, weights of "
         "both signs, sorting optimiser / sorting hill climber / brute-force exact stubs, default and harness transformations of the front, "
         "a relabelled second run; non-trivial = more candidates than slots filled by one member and a non-constant criterion / vector; "
         "distinct by SHA-256 of the case")
 TRUSTED = ["C17 model of the sampling utilities (checked by the C17 correspondence)",
+           "harness/translate/c07_kernel.py (ast translator of the kernel expressions; fail closed: statement sequence of every sample_xconfig, keyword arguments of the sampling calls, "
+           "class of the configuration a protocol builds and the shape of the setters are pinned, anything else is refused); numpy fancy indexing xmap[out,:] selects rows; "
+           "numpy.repeat(arange(n), x) repeats position i x_i times; rng.choice(n) returns a start below n",
            "numpy.argsort / argmax (first maximum) / repeat / fancy indexing semantics",
            "harness-side exact optimiser stubs (enumeration) are correct minimisers over their finite candidate lists",
            "props.c07._Lazy: shuffle(x) with permutation pm sets x[i] = x[pm[i]]; choice returns a[ix] (a scalar request choice(n) returns ix < n); uniform returns the recorded value"]
@@ -404,7 +424,7 @@ def _select_case(rng, fam=None, enc=None, nobj=None, algo=None):
             "bv": bv, "u": u, "ncross": nc, "nparent": npar, "nmating": nm, "nprogeny": npg, "nobj": nobj, "draw": _draw(rng),
             "unscale": rng.random() < 0.7, "loc": [rng.randint(-16, 16) / 8.0 for _ in range(ntrait)], "scale": [rng.choice([1.0, 2.0, 0.5]) for _ in range(ntrait)],
             "miscout": rng.random() < 0.85}
-    if rng.random() < 0.2: case["bvexp"] = rng.choice([-30, -12, 9, 15])      # breeding values at a scale far from 1 (still dyadic)
+    if rng.random() < (0.4 if nobj == 2 else 0.2): case["bvexp"] = rng.choice([-30, -12, 9, 15])      # breeding values at a scale far from 1 (still dyadic)
     nlat = (1 + ntrait) if fam == "ocs" else ntrait
     if nobj == 1:
         if nlat > 1: case["obj_trans"] = "sum"
@@ -463,6 +483,7 @@ def _select_fixed():
     two = dict(ntrait=2, nobj=2, bv=[[40, 0], [0, 40], [1, 1], [2, 2], [3, 3], [0, 0]], u=[[1, 0], [2, 1], [-3, 2], [4, 0], [0, 1]],
                ndset="wsum", ndset_w=[0.0, 0.0], front_order="rev")
     pair = {"mode": "pair", "seed": 5}
+    mo2 = dict(ntrait=2, nobj=2, bv=[[8, 1], [24, 2], [16, 5], [40, 0], [0, 9], [32, 3]], u=[[1, 0], [2, 1], [-3, 2], [4, 0], [0, 1]])
     return [v(), v(obj_wt=-1.0), v(ncross=3, nparent=2), v(ncross=1, nparent=1), v(ncross=6, nparent=1, relabel=[1, 0, 3, 2, 5, 4]),
             v(bv=[[8], [8], [8], [8], [8], [8]]), v(bv=[[8], [24], [24], [24], [0], [32]]), v(miscout=False),
             v(enc="binary", algo="stub"), v(enc="integer", algo="stub"), v(enc="real", algo="stub"),
@@ -471,6 +492,11 @@ def _select_fixed():
               ndset="wsum", ndset_w=[1.0, 0.5], ndset_wt=-1.0),
             v(ntrait=2, nobj=2, bv=[[8, 1], [24, 2], [16, 5], [40, 0], [0, 9], [32, 3]], u=[[1, 0], [2, 1], [-3, 2], [4, 0], [0, 1]], algo="stub",
               ndset="wsum", ndset_w=[0.0, 0.0], front_order="rev"),
+            # criteria and front scores at a scale of 2^-30 (a rounded / tolerance-based comparison would see ties only)
+            v(bvexp=-30), v(bvexp=-30, enc="binary", algo="stub"), v(bvexp=15, ncross=3),
+            v(enc="subset", algo="stub", bvexp=-30, ndset="wsum", ndset_w=[1.0, 0.5], **mo2), v(enc="real", algo="stub", bvexp=-30, ndset="wsum", ndset_w=[1.0, 0.5], **mo2),
+            v(enc="integer", algo="stub", bvexp=-30, ndset="wsum", ndset_w=[0.5, 1.0], ndset_wt=-1.0, **mo2), v(enc="binary", algo="stub", bvexp=-30, ndset="wsum", ndset_w=[1.0, 0.5], **mo2),
+            v(enc="real", algo="stub", bvexp=-30, ndset="wsum", ndset_w=[1.0, 2.0], front_order="rev", **mo2), v(enc="real", algo="stub", bvexp=-30, **mo2),
             v(nmating=0), v(nprogeny=[3, 0]), v(nmating=[1, 1, 1]), v(nprogeny=[2]), v(nprogeny=0, enc="integer", algo="stub"),
             v(nmating=[2, 0], family="ohv", enc="mate", unique=True), v(family="ohv", enc="imate", unique=True, algo="stub", ntaxa=4, bv=[[8], [24], [16], [40]]),
             # protocol-level paths into the tiling / single-individual / pairing corners of every individual-based configuration
@@ -1590,6 +1616,8 @@ def _pred_select1(case, out):
         if xmap != want: bad.append("cross map is not the lexicographic list of %s %d-tuples of candidates" % ("strictly increasing" if uniq else "non-decreasing", npar))
         if enc == "mate" and any(not (0 <= d < len(xmap)) for d in decn): bad.append("decision refers to a cross outside the map"); return bad
         if enc in ("imate", "bmate", "rmate") and len(decn) != len(xmap): bad.append("decision vector does not have one entry per candidate cross"); return bad
+    if enc in ("real", "integer", "binary") and len(decn) != case["ntaxa"]:
+        bad.append("decision vector has %d entries, the candidate population has %d individuals" % (len(decn), case["ntaxa"])); return bad
     if enc in ("integer", "binary", "imate", "bmate") and (any(v < 0 for v in decn) or sum(decn) <= 0): return bad + ["degenerate integer decision %r" % decn]
     if enc in ("binary", "bmate") and any(v not in (0, 1) for v in decn): return bad + ["binary decision %r has an entry other than 0 and 1" % decn]
     if real and (any(v < 0 for v in decn) or sum(decn) <= 0): return bad + ["degenerate contribution vector"]
